@@ -8,7 +8,7 @@ if [ ! -d .deps/icontract ]; then
         --target "$here/.deps" icontract || exit 1
 fi
 mkdir -p evidence replays
-# warm the private byte-code cache (site-packages only matter; /repo is recompiled per run)
-PYTHONPYCACHEPREFIX="$here/.cache/pyc" PYTHONPATH="$here:$here/.deps:/repo" MPLBACKEND=Agg \
+# smoke test: everything the checks import is importable offline
+PYTHONDONTWRITEBYTECODE=1 PYTHONPATH="$here:$here/.deps:/repo" MPLBACKEND=Agg \
     /venv/bin/python -c "import xyzpy, icontract, matplotlib.pyplot, h5netcdf, pandas, vf.common" || exit 1
 echo "setup ok"
